@@ -501,6 +501,7 @@ class HashRule(ABC):
                         symbol=parts[i],
                         first_level=first_level,
                         ref_is_global_table=False,
+                        path=symbol_part + "." + parts[i],
                     )
                 )
                 return
@@ -573,10 +574,14 @@ class UndefinedSymbolHashRule(HashRule):
         symbol: str,
         first_level: bool,
         ref_is_global_table: bool,
+        path: str = None,
     ):
+        # The key names the whole dotted path: `m1.x` and `m2.x` (and a global `x`) are
+        # different symbols, each of which can be defined later on its own
+        self.path = path if path is not None else symbol
         # noinspection PyUnresolvedReferences
         super().__init__(
-            key="UndefinedSymbol;{};{}".format(parent_symbol, symbol),
+            key="UndefinedSymbol;{};{}".format(parent_symbol, self.path),
             parent_symbol=parent_symbol,
             symbol=symbol,
             first_level=first_level,
@@ -591,6 +596,7 @@ class UndefinedSymbolHashRule(HashRule):
             self.symbol,
             self.first_level,
             self.ref_is_global_table,
+            self.path,
         )
 
     def collect_transitive_dependencies(
